@@ -186,7 +186,7 @@ func (c *m3) computeDirect() {
 	})
 	for o := range good {
 		if defs[o] == 1 {
-			if _, isPtr := o.Type().Underlying().(*types.Pointer); isPtr && abstractName3(o.Type()) == "" {
+			if _, isPtr := o.Type().Underlying().(*types.Pointer); isPtr && abstractName3(o.Type()) == "" && !(curMode4 && isBigInt4(o.Type())) {
 				c.direct[o] = true
 			}
 		}
@@ -547,6 +547,9 @@ func (c *m3) selector(e *ast.SelectorExpr) string {
 
 // pkgVar: a package-level variable: a table of this package, or an abstract constant
 func (c *m3) pkgVar(use ast.Expr, v *types.Var) string {
+	if curMode4 && isBigInt4(v.Type()) && v.Pkg() == c.p.tpkg {
+		return c.bigGlobal(use, v)
+	}
 	if v.Pkg() == c.p.tpkg {
 		if id, ok := use.(*ast.Ident); ok {
 			t := c.mtL(v.Type(), use, true)
@@ -1296,6 +1299,9 @@ func (c *m3) builtin(e *ast.CallExpr, name string) string {
 		return fmt.Sprintf("(%s ++ [%s])", base, strings.Join(el, "; "))
 	case "new":
 		t := c.tyOf(e)
+		if t.big {
+			return "0%Z"
+		}
 		if t.k == mAbs {
 			c.needVar(t.abs+"_new", c.coqT(t), e)
 			return t.abs + "_new"
@@ -1354,6 +1360,11 @@ func (c *m3) intrinsic(e *ast.CallExpr, path, name string) (string, mtype, bool)
 		return out
 	}
 	rt := func() mtype { return c.tyOf(e) }
+	if curMode4 {
+		if s, t, ok := c.intrinsic4(e, path, name, args); ok {
+			return s, t, true
+		}
+	}
 	switch path + "." + name {
 	case "strings.ToLower":
 		a := args(1)
@@ -1782,6 +1793,9 @@ func (c *m3) methodCall(e *ast.CallExpr, sel *ast.SelectorExpr, s *types.Selecti
 	f := s.Obj().(*types.Func)
 	gsig := f.Type().(*types.Signature)
 	xt := c.typeOf(sel.X)
+	if curMode4 && isBigInt4(xt) {
+		return c.bigMethod(e, sel)
+	}
 	if an := abstractName3(xt); an != "" {
 		return c.absFuncCall(e, an+"_"+f.Name(), gsig, sel.X, an, mutating3[an+"."+f.Name()])
 	}
